@@ -65,8 +65,20 @@ def run(chk: common.Check, tier: str):
     import dataclasses
     texts += list(gramgen.gen_grammars(r, dataclasses.replace(kn, terminals=("NAME", "SOFT_KEYWORD", "STRING", "OP", "NUMBER", '"soft"', "'kw'", "'+'", "NEWLINE")), 12 if tier == "quick" else 150))
     nin = 25 if tier == "quick" else 150
+
+    def inst(n, bad):
+        chk.oblige("instance condition of C15_action_receives_the_span_of_the_match: in the module the generator model emits "
+                   f"(tied to the real generator by K-gen / K-run) for each of the {n} explored grammars, every method with an "
+                   "alternative that asks for LOCATIONS captures the start position at entry (m_locations) and is not a loop "
+                   "helper (evaluated in Coq: rcase_loc)", not bad, json.dumps(bad[:3]))
+
+    def has_loc(n, without):
+        chk.bump("explored grammars whose generated module has at least one alternative with LOCATIONS (the theorem's "
+                 "instance condition is not vacuous there)", n - len(without))
+        chk.oblige("the LOCATIONS seed grammars all produce alternatives with a_locations in the generator model",
+                   not [t for t in without if t in SEEDS], json.dumps([t for t in without if t in SEEDS][:3]))
     pairs = rm.krun(chk, "C15", texts, lambda t: A.inputs_upto(A.alphabet(t), 3, nin) + (EXTRA if t in SEEDS else []),
-                    configs=("q1", "q0", "v1", "v0"))
+                    configs=("q1", "q0", "v1", "v0"), extra_preds=(("kloc", "rcase_loc", inst), ("khasloc", "rcase_has_loc", has_loc)))
     for t, rj in pairs:
         if not t.startswith("start:") or "mk(LOCATIONS)" not in t.split("\n")[0]:
             continue
